@@ -121,6 +121,56 @@ def callers_of(fx, name):
     return out
 
 
+_CALLERS = {}
+
+
+def caller_roots(fx):
+    """callee (declared or resolved) -> set of root functions of the definitions calling it"""
+    key = id(fx)
+    if key not in _CALLERS:
+        m = {}
+        for f in fx.d["fns"]:
+            b = Body(f)
+            r = f.get("root", f["def"])
+            for _bi, t in b.normal_calls():
+                for c in {t.get("callee"), t.get("resolved")}:
+                    if c:
+                        m.setdefault(c, set()).add(r)
+            # a function used as a value (fn item passed on) counts as a use from there
+            for blk in b.blocks:
+                for st in blk["s"]:
+                    if st["k"] == "assign":
+                        for o in st["r"].get("ops", []) if isinstance(st["r"].get("ops"), list) else []:
+                            if o.get("k") == "const" and o.get("fn"):
+                                m.setdefault(o["fn"], set()).add(r)
+                t = blk["t"]
+                for o in t.get("args", []) if t.get("k") == "call" else []:
+                    if o.get("k") == "const" and o.get("fn"):
+                        m.setdefault(o["fn"], set()).add(r)
+        _CALLERS[key] = m
+    return _CALLERS[key]
+
+
+def private_helpers(fx, owners):
+    """crate-private free / inherent functions all of whose uses are inside `owners` (a set of root function names) or
+    inside other such helpers — extracting part of an owner into one does not change who runs the code"""
+    cr = caller_roots(fx)
+    helpers = set()
+    cand = [f for f in fx.d["fns"] if f["kind"] in ("fn", "assoc_fn") and f.get("vis") != "pub" and not f.get("impl_trait") and f["def"] not in owners]
+    changed = True
+    while changed:
+        changed = False
+        for f in cand:
+            d = f["def"]
+            if d in helpers:
+                continue
+            users = cr.get(d, set()) - {d}
+            if users and users <= (owners | helpers):
+                helpers.add(d)
+                changed = True
+    return helpers
+
+
 def param_sinks(fx, fn_def, arg_index, depth=2):
     """where the value passed as argument `arg_index` (1-based local) of a crate-local function ends up, looking into
     the coroutine of an async fn and through further local helpers (bounded)"""
